@@ -85,6 +85,12 @@ def rhs_text(ty, w, ext, var, pool, b):
         assert sb is not None and tuple(extb) == tuple(ext), (ext, extb, slice_cpp(axes_b))
         d, o = operand(shape_b, var)
         return d, '%s(%s)' % (var, slice_cpp(axes_b)), [E.inp(b, o + p) for (_, p) in slice_elems(shape_b, sb)]
+    if k == 'mslice':     # slice of a TensorMap (generic view) as right-hand side
+        shape_b, axes_b = w.rhs[1], w.rhs[2]
+        sb, extb = slice_sel(shape_b, axes_b)
+        assert sb is not None and tuple(extb) == tuple(ext), (ext, extb, slice_cpp(axes_b))
+        d, o = operand(shape_b, var, 'map')
+        return d, '%s(%s)' % (var, slice_cpp(axes_b)), [E.inp(b, o + p) for (_, p) in slice_elems(shape_b, sb)]
     if k == 'neg':
         d, o = operand(ext, var)
         return d, '-%s' % var, [-E.inp(b, o + j) for j in range(m)]
@@ -194,12 +200,13 @@ def rhs_for(rng, kind, ext, fixed=None):
     if kind == 'lit': return ('lit', 3)
     if kind == 'tensor': return ('tensor', rng.choice(['own', 'map']))
     if kind == 'slice': return ('slice',) + other_slice(rng, ext, fixed)
+    if kind == 'mslice': return ('mslice',) + other_slice(rng, ext, fixed)
     if kind == 'addslice': return ('addslice',) + other_slice(rng, ext, fixed)
     return (kind,)
 
 UF_BUDGET = 28      # uninterpreted float applications per case on the code side (the clause side doubles it; Ackermann is quadratic)
 UF_MAX_TARGET = 36  # a single float arithmetic write with more applications than this is not decidable in the time budget: left out
-MOVE_KINDS = ('scalar', 'lit', 'tensor', 'slice', 'neg', 'trans')
+MOVE_KINDS = ('scalar', 'lit', 'tensor', 'slice', 'mslice', 'neg', 'trans')
 
 def target_cost(ty, shape, w):
     """float operations one write executes (selected elements x operations per element)."""
@@ -207,7 +214,7 @@ def target_cost(ty, shape, w):
     sels, ext = slice_sel(shape, w.axes)
     m = prod(ext)
     per = (0 if w.op == '=' else 1) + (1 if w.rhs[0] in ('add', 'addslice', 'transadd') else 0)
-    return m * per
+    return m * per * (2 if ty.bits == 64 else 1)        # 64-bit uninterpreted applications cost about twice as much
 
 def split_targets(ty, targets):
     """float: pure data movement (`=` of a movement right-hand side) stays SYM in its own entry; arithmetic targets are packed
@@ -318,6 +325,7 @@ def cases(tier, seed):
                         if (si + di + ti + ni) % 2: continue
                         ops = [ops[(si + di + ti + ni) % len(ops)]]
                     for op in ops:
+                        if ty.kind == 'float' and op != '=' and prod(shape) > 15: continue     # one uninterpreted application per element in the clause
                         out.append(elem_assign_case(ty, shape, cfg, dst, op))
         # ---------------- rank 1: every (first,last,step) triple as destination ----------------
         for N in range(1, 9):
@@ -326,18 +334,18 @@ def cases(tier, seed):
                     if kind == 'fseq' and N > 6: continue
                     tys = TYPES if (wide and N <= 6) else [TYPES[(N + ni) % 3]]
                 else:
-                    if N > (6 if kind == 'seq' else 4): continue
+                    if N > (5 if kind == 'seq' else 3): continue
                     tys = [TYPES[(N + ni + (kind == 'fseq')) % 3]]
                 for ty in tys:
                     ti = TYPES.index(ty)
                     ts = triples(N)
-                    for dst in (DST if (dense and N in (4, 6)) or (N == 4 and kind == 'seq') else ['own']):
+                    for dst in (DST if (dense and N in (4, 6)) or (N == 3 and kind == 'seq') else ['own']):
                         encs = ENCS if (wide and dst == 'own' and kind == 'seq' and ty is INT) else None
                         dests = []
                         for n, (f, l, st) in enumerate(ts):
                             for enc in (encs or [ENCS[(n + ti + N) % 3]]):
                                 dests.append((ax1(kind, f, l, st, N, enc),))
-                        out += multi_dest_cases('%s1-%s' % (kind, dst), ty, (N,), dests, dst, cfg, rng, RHS_1D, 5 if kind == 'seq' else 3, 'x', nkeep=1 if not wide else 2)
+                        out += multi_dest_cases('%s1-%s' % (kind, dst), ty, (N,), dests, dst, cfg, rng, RHS_1D, (5 if dense else 8) if kind == 'seq' else (3 if dense else 4), 'x', nkeep=1 if not wide else 2)
         for ti, ty in enumerate(TYPES):
             V = vec_elems(isa, ty)
             # ---------------- destinations whose last-axis extent straddles the SIMD width ----------------
@@ -350,14 +358,15 @@ def cases(tier, seed):
                     (f, l, enc) = sl[(n + ki) % len(sl)]
                     last_ax = ax1(kind, f, l, s, N, enc)
                     rot = n + ti + ni
+                    do1 = dense or (n // 2 + ki + ti) % 2 == 0      # quick: ranks 1 and 2 alternate over the sweep
                     # rank 1
-                    for dst in (DST if wide else [DST[(n // 2 + ti) % 2]]):
+                    for dst in ((DST if wide else [DST[(n // 2 + ti) % 2]]) if do1 else []):
                         kinds = [RHS_1D[(n + 2 * ti + ni + q) % len(RHS_1D)] for q in range(2 if wide else 1)]
                         out += dest_cases('%s1v-%s' % (kind, dst), ty, (N,), (last_ax,), dst, cfg, rng, kinds, ident='e%d.s%d' % (e, s), nkeep=nkeep, rot=rot)
                         if s > 1 and e >= V and (dst == 'own' or not dense):
                             out += dest_cases('%s1v-own' % kind, ty, (N,), (last_ax,), 'own', cfv, rng, kinds, ident='e%d.s%d' % (e, s), nkeep=nkeep, rot=rot + 1)
                     # rank 2
-                    if e > 17 and not dense: continue
+                    if not dense and (e > 17 or do1): continue
                     lead = lead_axis(fixed, 3, n + ki + ti)
                     axes2 = (lead, last_ax)
                     for dst in (DST if wide else [DST[(n // 2 + ti + 1) % 2]]):
@@ -366,7 +375,7 @@ def cases(tier, seed):
                         if s > 1 and e >= V and (dst == 'own' or not dense):
                             out += dest_cases('%s2v-own' % kind, ty, (3, N), axes2, 'own', cfv, rng, kinds, ident='e%d.s%d' % (e, s), nkeep=nkeep, rot=rot + 1)
                     # rank 3 (generic nD views)
-                    if (e in (V, V + 1) and s == 1 and e <= 9) or (dense and e <= 17):
+                    if (e == V and s == 1 and e <= 8) or (dense and e <= 9):
                         axes3 = (lead_axis(fixed, 3, n + ti + 1, allow_int=True), lead_axis(fixed, 3, n + 2 * ki + ni, allow_int=False), last_ax)
                         dst = DST[(n + ki) % 2]
                         kinds = [k for k in RHS_ALL if k not in ('trans', 'transadd')]
@@ -380,9 +389,9 @@ def cases(tier, seed):
                     pairs = allpairs if (wide or ti == ni % 3) else sample(rng, allpairs, 18)
                     if kind == 'fseq': pairs = sample(rng, pairs, 24)
                 else:
-                    pairs = allpairs if (kind == 'seq' and ti == ni % 3) else sample(rng, allpairs, 9 if kind == 'seq' else 6)
+                    pairs = sample(rng, allpairs, (24 if ti == ni % 3 else 6) if kind == 'seq' else 6)
                 for dst in DST:
-                    sel = pairs if dst == 'own' else sample(rng, pairs, 4 if not dense else 12)
+                    sel = pairs if dst == 'own' else sample(rng, pairs, 3 if not dense else 12)
                     dests = []
                     for n, (t0, t1) in enumerate(sel):
                         e0, e1 = ENC2[(n + ti) % len(ENC2)]
@@ -394,15 +403,28 @@ def cases(tier, seed):
             # ---------------- mixed argument kinds (rank 2 overloads, rank 3/4 generic views) ----------------
             for shape in ([(4, 5), (2, 3, 4)] if not dense else [(4, 5), (2, 3, 4), (2, 2, 3, 3)]):
                 for dst in DST:
-                    k = 2 if not dense else 8
+                    k = 1 if not dense else 8
                     for q in range(k):
                         w = random_write(rng, ty, shape, dst, ['seq', 'fseq', 'all', 'int', 'last', 'first', 'fix', 'fixlast'])
                         out.append(write_case('mixed%d-%s' % (len(shape), dst), ty, [(shape, dst, [w])], cfg, 'm%d.%s' % (q, w.tag())))
+            # ---------------- right-hand side = slice of a TensorMap (generic view) ----------------
+            # rank 2 destinations in an owning tensor use the 2-D view whose evaluator calls rhs.eval(row, col); the generic view
+            # reads eval(i,j) as flat offset i+j: known defect, kept in families of its own (*2ms-own); ranks 1 and 3 are unaffected
+            if ty.kind == 'int' or dense or ti == 1 + ni % 2:
+                for ki, kind in enumerate(('seq', 'fseq')):
+                    fixed = kind == 'fseq'
+                    e = min(V + 1, 5)
+                    d1 = (ax1(kind, 1, 1 + 2 * e - 1, 2, 2 * e + 1, 'nl'),)
+                    d2 = (ax1(kind, 0, 3, 2, 3, 'pos'), ax1(kind, 1, 1 + e, 1, e + 2, 'nl'))
+                    d3 = (lead_axis(fixed, 3, ki + ti, allow_int=False), lead_axis(fixed, 3, ki + ni + 1, allow_int=False), ax1(kind, 0, e, 1, e + 1, 'pos'))
+                    out += dest_cases('%s1ms-own' % kind, ty, (2 * e + 1,), d1, 'own', cfg, rng, ['mslice'], fixed=False, ident='e%d' % e, nkeep=1, rot=ti)
+                    out += dest_cases('%s2ms-own' % kind, ty, (3, e + 2), d2, 'own', cfg, rng, ['mslice'], fixed=False, ident='e%d' % e, nkeep=1, rot=ti)
+                    out += dest_cases('%sNms-own' % kind, ty, (3, 3, e + 1), d3, 'own', cfg, rng, ['mslice'], fixed=False, ident='e%d' % e, nkeep=1, rot=ti)
             # ---------------- short histories: 2-3 writes to the same tensor in one entry ----------------
             for hi, shape in enumerate([(9,), (4, 5), (2, 3, 4)]):
                 for di, dst in enumerate(DST):
                     if not dense and (hi + di + ti + ni) % 2: continue
-                    for q in range(2 if not dense else 6):
+                    for q in range(1 if not dense else 6):
                         nw = 2 + (q + ti) % 2
                         while True:
                             ws = [random_write(rng, ty, shape, dst, ['seq', 'fseq', 'all'] if len(shape) < 3 else ['seq', 'fseq', 'all', 'int', 'fix'], allow_div=False) for _ in range(nw)]
